@@ -5,6 +5,7 @@ pub mod docfam;
 pub mod explore;
 pub mod fam;
 pub mod run;
+pub mod sent;
 pub mod shape;
 pub mod sup;
 pub mod vis;
